@@ -1,6 +1,7 @@
 ID = 'C10'
 GROUPS = ['common', 'acn']
 CXX_SOURCES = ['plugins/usbpro/BaseUsbProWidget.cpp', 'plugins/usbpro/BaseRobeWidget.cpp',
+               'plugins/usbpro/RobeWidget.cpp',
                'plugins/openpixelcontrol/OPCServer.cpp']
 WRAP = ['read']
 
@@ -22,18 +23,32 @@ def gen_consts(v):
              ('ACN_THREE_BYTES', 'ola::acn::IncomingStreamTransport::THREE_BYTES'),
              ('ACN_LFLAG_MASK', 'ola::acn::BaseInflator::LFLAG_MASK'),
              ('ACN_LENGTH_MASK', 'ola::acn::BaseInflator::LENGTH_MASK'),
+             ('ACN_VFLAG_MASK', 'ola::acn::VFLAG_MASK'),
+             ('ACN_HFLAG_MASK', 'ola::acn::HFLAG_MASK'),
+             ('ACN_CID_LENGTH', 'ola::acn::CID::CID_LENGTH'),
+             ('ACN_ROOT_VECTOR_SIZE', 'ola::acn::PDU::FOUR_BYTES'),
+             ('ACN_VECTOR_ROOT_NULL', 'ola::acn::VECTOR_ROOT_NULL'),
              ('RPC_VERSION_MASK', 'ola::rpc::RpcHeader::VERSION_MASK'),
              ('RPC_SIZE_MASK', 'ola::rpc::RpcHeader::SIZE_MASK'),
              ('RPC_PROTOCOL_VERSION', 'ola::rpc::RpcChannel::PROTOCOL_VERSION'),
              ('RPC_MAX_BUFFER_SIZE', 'ola::rpc::RpcChannel::MAX_BUFFER_SIZE')]
     import re
+    # RobeWidgetImpl::HandleMessage: the label -> handler switch, taken from the source text; the label
+    # values themselves come from the compiled header
+    rsrc = re.sub(r'//[^\n]*', '', open(v.repo_path('plugins/usbpro/RobeWidget.cpp')).read())
+    mm = re.search(r'void RobeWidgetImpl::HandleMessage\([^)]*\)\s*\{(.*?)\n\}', rsrc, re.S)
+    if not mm:
+        return 'RobeWidgetImpl::HandleMessage not found'
+    robe_cases = re.findall(r'case\s+(?:BaseRobeWidget::)?(\w+)\s*:\s*(\w+)\s*\(', mm.group(1))
+    handler_ids = {'HandleRDMResponse': 1, 'HandleDiscoveryResponse': 2, 'HandleDmxFrame': 3}
+    ents += [('ROBEL_' + name, 'ola::plugin::usbpro::BaseRobeWidget::' + name) for name, _ in robe_cases]
     tmp = os.path.join(v.BUILD, ID, 'Gen.headers.v')
     os.makedirs(os.path.dirname(tmp), exist_ok=True)
     if os.path.exists(tmp):
         os.unlink(tmp)
     err = v.gen_consts_cpp(ID, ['plugins/usbpro/BaseUsbProWidget.h', 'plugins/usbpro/BaseRobeWidget.h',
                                 'plugins/openpixelcontrol/OPCConstants.h', 'libs/acn/TCPTransport.h',
-                                'libs/acn/BaseInflator.h', 'common/rpc/RpcChannel.h', 'common/rpc/RpcHeader.h'], ents, tmp)
+                                'libs/acn/BaseInflator.h', 'libs/acn/PDU.h', 'ola/acn/CID.h', 'ola/acn/ACNFlags.h', 'ola/acn/ACNVectors.h', 'common/rpc/RpcChannel.h', 'common/rpc/RpcHeader.h'], ents, tmp)
     if err:
         return err
     # ACN_HEADER[] and INITIAL_SIZE are defined in TCPTransport.cpp only (internal linkage / out-of-class
@@ -48,10 +63,16 @@ def gen_consts(v):
     lst = 'nil'
     for x in reversed(hdr):
         lst = '(cons %d %s)' % (x, lst)
+    table = 'nil'
+    for name, handler in reversed(robe_cases):
+        table = '(cons (pair ROBEL_%s %d) %s)' % (name, handler_ids.get(handler, 99), table)
+    extra_robe = ('(* label -> handler of RobeWidgetImpl::HandleMessage: 1 HandleRDMResponse, 2 HandleDiscoveryResponse, '
+                  '3 HandleDmxFrame; labels not listed fall into the default branch *)\n'
+                  'Definition ROBE_DISPATCH : list (N * N) := %s.\n' % table)
     extra = ('From Coq Require Import List.\n'
              'Definition ACN_HEADER : list N := %s.\nDefinition ACN_HEADER_SIZE : N := %d.\n'
              'Definition ACN_INITIAL_SIZE : N := %d.\n' % (lst, len(hdr), int(m2.group(1))))
-    new = open(tmp).read() + extra
+    new = open(tmp).read() + extra + extra_robe
     out = os.path.join(v.VERIF, 'props', ID, 'coq', 'Gen.v')
     if not os.path.exists(out) or open(out).read() != new:
         with open(out, 'w') as f:
@@ -94,7 +115,7 @@ USB_SIZES = [0, 0, 1, 1, 2, 3, 5, 25, 26, 255, 256, 257, 513, 599, 600]
 ROBE_SIZES = [0, 0, 1, 1, 2, 3, 5, 25, 255, 256, 257, 513, 521, 522]
 OPC_SIZES = [0, 0, 1, 1, 2, 3, 4, 5, 30, 255, 256, 511, 512, 513, 600]
 
-def gen_stream(rng, proto, big):
+def gen_stream(rng, proto, big, types=None):
     """returns (bytes, list of interesting offsets)"""
     out = []
     marks = []
@@ -130,7 +151,7 @@ def gen_stream(rng, proto, big):
         elif proto == 'robe':
             sp = (0xa5, 0, 1, 2, 10, 165)
             n = rng.choice(ROBE_SIZES) if rng.random() < 0.6 else rng.randrange(0, 40)
-            ty = rng.choice([0, 0x12, 0xa5, rng.randrange(256)])
+            ty = rng.choice(types or [0, 0x12, 0xa5, rng.randrange(256)])
             if k < 0.55:
                 out += robe_frame(ty, rbytes(rng, n, sp))
             elif k < 0.62:
@@ -278,6 +299,50 @@ def gen_rpc(rng, big):
     marks.append(len(out))
     return out, marks, bad
 
+def gen_acnroot(rng, big):
+    """blocks of root-layer PDUs: flags|length, 4-byte vector, 16-byte CID, data; returns (bytes, marks, vectors)"""
+    out, marks = [], []
+    pool = [4, 5, 6, 0, 0x0b, rng.randrange(1 << 32)]
+    for _ in range(rng.choice([1, 1, 2, 3]) if not big else rng.choice([2, 6])):
+        marks.append(len(out))
+        pdus = []
+        for _ in range(rng.choice([1, 1, 2, 3, 5])):
+            v = rng.choice(pool)
+            k = rng.random()
+            flags = 0x60                      # V | H
+            body = [(v >> 24) & 255, (v >> 16) & 255, (v >> 8) & 255, v & 255]
+            body += [0] * 16 if rng.random() < 0.1 else rbytes(rng, 16)
+            body += rbytes(rng, rng.choice([0, 0, 1, 5, 40, 638 if big else 60]))
+            if k < 0.10:
+                flags = 0x20                  # no vector: nothing to inherit
+            elif k < 0.20:
+                flags = 0x40                  # no header: no CID to inherit
+            elif k < 0.28:
+                flags = 0x00
+            elif k < 0.36:
+                body = body[:rng.choice([0, 1, 3, 4, 5, 19])]      # too short for vector + CID
+            elif k < 0.42:
+                flags |= 0x10                 # D flag: ignored
+            n = len(body)
+            three = (n + 2 > 4095) or rng.random() < 0.25
+            ls = 3 if three else 2
+            n += ls
+            if three:
+                pdus.append([0x80 | flags | ((n >> 16) & 15), (n >> 8) & 255, n & 255] + body)
+            else:
+                pdus.append([flags | ((n >> 8) & 15), n & 255] + body)
+        total = sum(len(x) for x in pdus)
+        hdr = list(ACN_HDR)
+        if rng.random() < 0.05:
+            hdr[rng.randrange(12)] ^= 1
+        out += hdr + [(total >> 24) & 255, (total >> 16) & 255, (total >> 8) & 255, total & 255]
+        for x in pdus:
+            marks.append(len(out))
+            out += x
+    marks.append(len(out))
+    regs = sorted({v for v in pool if v != 6 and rng.random() < 0.5})
+    return out, marks, regs
+
 def part_from_cuts(total, cuts):
     cuts = sorted({c for c in cuts if 0 < c < total})
     pts = [0] + cuts + [total]
@@ -356,6 +421,22 @@ def gen_cases(rng, tier):
                 chs = sorted({c for c in pool if rng.random() < 0.5})
                 tok = 'opc@' + (','.join(str(c) for c in chs) if chs else '-')
             yield '%s %d %s %s' % (tok, cap, hx(st), '/'.join(partitions(rng, len(st), marks, strided, coarse)))
+    # the real RobeWidget: labels with a handler (DMX in, RDM response, discovery response) and
+    # without one, mixed in one stream
+    for i in range(150 if quick else 2500):
+        big = (i % 40 == 39)
+        st, marks = gen_stream(rng, 'robe', big, types=[5, 5, 5, 0x11, 0x13, 0, 0x12, 4, 6, rng.randrange(256)])
+        st = st[:50000]
+        coarse = len(st) > 6000 and quick
+        cap = rng.choice([0, 0, 0, 0, 1, 2, 3, 7, 100])
+        yield 'robew %d %s %s' % (cap, hx(st), '/'.join(partitions(rng, len(st), marks, coarse or (big and quick), coarse)))
+    for i in range(200 if quick else 3000):
+        big = (i % 40 == 39)
+        st, marks, regs = gen_acnroot(rng, big)
+        coarse = len(st) > 6000 and quick
+        cap = rng.choice([0, 0, 0, 0, 1, 2, 3, 7, 100])
+        yield 'acnroot@%s %d %s %s' % (','.join(str(v) for v in regs) if regs else '-', cap, hx(st),
+                                       '/'.join(partitions(rng, len(st), marks, coarse or (big and quick), coarse)))
     for i in range(300 if quick else 4000):
         big = (i % 40 == 39)
         st, marks, bad = gen_rpc(rng, big)
@@ -437,7 +518,7 @@ ASSUMPTIONS = ['the kernel delivers the bytes of a pipe/socket in order',
                'operator new does not fail (OPC buffer growth)']
 TRUSTED = ['modelled rather than verified: ConnectedDescriptor::Receive (POSIX branch), '
            'BaseUsbProWidget::ReceiveMessage/DescriptorReady, BaseRobeWidget::ReceiveMessage/DescriptorReady, '
-           'OPCServer::SocketReady/RxState::CheckSize, IncomingStreamTransport::Receive/ReadRequiredData/'
+           'OPCServer::SocketReady/RxState::CheckSize, RobeWidgetImpl::HandleMessage/HandleDmxFrame, BaseInflator::InflatePDUBlock/DecodeLength/DecodeVector/InflatePDU + RootInflator::DecodeHeader for one PDU, IncomingStreamTransport::Receive/ReadRequiredData/'
            'IncreaseBufferSize/Handle*/Enter* (libs/acn/TCPTransport.cpp, with a recording inflator), RpcChannel::DescriptorReady/ReadHeader; the receive buffers are modelled as the list of bytes '
            'stored so far plus an explicit capacity check on every store; SOM/EOM/size limits regenerated '
            'into Gen.v',
@@ -455,7 +536,7 @@ LEVEL_TEXT = ('Coq theorems over executable models of the code, for all five fra
               'c10_*_bounds); any interleaving of data arrivals and callback invocations of a level-triggered poller '
               'delivers the same (c10_schedule_*). For OPC the set of channels with a registered callback is a parameter of model, reference framer and theorems (frames of unregistered channels are skipped and nothing read alongside them is lost: c10_opc_unregistered_skipped); the harness registers callbacks for generated subsets. The OPC theorems are stated for the linear-time machine the '
               'correspondence runs and rest on a proved simulation of the branch-for-branch model '
-              '(c10_opc_fast_refines). Not covered by a theorem: RpcChannel buffer (re)allocation (C09) and the '
+              '(c10_opc_fast_refines). Further: the OPC capacity window over a connection history (c10_opc_capacity: CheckSize growth is sufficient and bounded), the Robe resynchronisation points (c10_robe_resync), the real RobeWidget label switch on top of the framer (table regenerated from the source, c10_robe_dispatch) and a real ACN RootInflator with and without child inflators behind the transport (c10_acn_root_chunk_free, c10_acn_root_skip), each also in the correspondence. Not covered by a theorem: RpcChannel buffer (re)allocation (C09), the Enttec widget label dispatch and the '
               'protobuf parser itself.')
 LEVEL_NOTE = ('Trusted: Coq kernel, extraction (ExtrOcamlBasic), OCaml/C++ glue, the ld --wrap=read interposer, generator '
               'coverage of the correspondence (model = code is validated by differential testing on pipes/socket pairs '
